@@ -414,3 +414,84 @@ def check_stale_loop_variables(ctx, fns, rule='A29'):
            'no loop reads a name that only an earlier, completed loop of the same block binds',
            f'{pairs} pairs of consecutive loops examined')
     return pairs
+
+
+# ---------------------------------------------------------------------- A10z: division where the function tests for zero
+def check_zero_tested_divisions(ctx, fns, rule='A10z'):
+    """Contradiction rule: a function that tests a value against zero (`if n == 0: return ...`) believes it can be zero;
+    every division by that value in the same function then lies behind the test (is reached only over an edge on
+    which the value is known to be non-zero).  A division placed in front of the test raises ZeroDivisionError on
+    exactly the inputs the test was written for."""
+    from .common import walk_fn
+    n = 0
+    for fn in fns:
+        if isinstance(fn.node, ast.Lambda):
+            continue
+        divs = {}
+        for x in walk_fn(fn):
+            if isinstance(x, ast.BinOp) and isinstance(x.op, (ast.Div, ast.FloorDiv, ast.Mod)) and \
+                    isinstance(x.right, ast.Name):
+                divs.setdefault(x.right.id, []).append(x)
+        if not divs:
+            continue
+        tested = set()
+        for c in walk_fn(fn):
+            if isinstance(c, ast.Compare) and len(c.ops) == 1 and isinstance(c.ops[0], (ast.Eq, ast.NotEq, ast.Gt, ast.LtE)):
+                l, r = c.left, c.comparators[0]
+                if isinstance(r, ast.Name) and isinstance(l, ast.Constant):
+                    l, r = r, l
+                if isinstance(l, ast.Name) and isinstance(r, ast.Constant) and r.value == 0 and \
+                        not isinstance(r.value, bool) and l.id in divs:
+                    tested.add(l.id)
+        if not tested:
+            continue
+        cfg = build_cfg(fn)
+        for d in sorted(tested):
+            def nonzero(atom, truth, d=d):
+                if not (isinstance(atom, ast.Compare) and len(atom.ops) == 1):
+                    return False
+                l, r, op = atom.left, atom.comparators[0], atom.ops[0]
+                if isinstance(r, ast.Name) and isinstance(l, ast.Constant):
+                    l, r = r, l
+                    op = {ast.Gt: ast.Lt, ast.Lt: ast.Gt, ast.GtE: ast.LtE, ast.LtE: ast.GtE}.get(type(op), type(op))()
+                if not (isinstance(l, ast.Name) and l.id == d and isinstance(r, ast.Constant) and r.value == 0):
+                    return False
+                if isinstance(op, ast.Eq):
+                    return truth is False
+                if isinstance(op, (ast.NotEq, ast.Gt, ast.Lt)):
+                    return truth is True
+                if isinstance(op, (ast.LtE, ast.GtE)):
+                    return False if isinstance(op, ast.GtE) else truth is False
+                return False
+            # a division guarded inside its own expression (`a / d if d > 0 else 1.`) is behind the test already
+            parents = {}
+            for p_ in ast.walk(fn.node):
+                for ch in ast.iter_child_nodes(p_):
+                    parents[id(ch)] = p_
+
+            def expr_guarded(dv):
+                node = dv
+                while id(node) in parents:
+                    par = parents[id(node)]
+                    if isinstance(par, ast.IfExp) and node is not par.test:
+                        if (node is par.body and nonzero(par.test, True)) or \
+                                (node is par.orelse and nonzero(par.test, False)):
+                            return True
+                    if isinstance(par, ast.BoolOp) and isinstance(par.op, ast.And):
+                        i_ = next((k for k, v_ in enumerate(par.values) if v_ is node), 0)
+                        if any(nonzero(v_, True) for v_ in par.values[:i_]):
+                            return True
+                    if isinstance(par, ast.stmt):
+                        break
+                    node = par
+                return False
+            open_divs = [dv for dv in divs[d] if not expr_guarded(dv)]
+            sinks = [nd for nd in cfg.nodes if any(e is not None and any(x is dv for dv in open_divs for x in ast.walk(e))
+                                                   for e in node_exprs(nd))]
+            if not sinks:
+                continue
+            n += len(sinks)
+            check_guarded(ctx, rule, fn, sinks, nonzero, {d}, f'division-behind-zero-test:{d}',
+                          f'{fn.qualname} tests `{d}` against zero, so it can be zero: a division by `{d}` is reached '
+                          f'only where the test has excluded that')
+    return n
